@@ -323,3 +323,6 @@ def simplify(scenario):
     from tesim.props import c04
     for c in c04.simplify(scenario):
         yield c
+
+
+generate = gen_epi.with_backtest_driver(generate, 0.2)
